@@ -7,6 +7,7 @@ import JsonbModel.Ser
 import JsonbModel.Driver.AccessOps
 import JsonbModel.Driver.EditOps
 import JsonbModel.Driver.NumOps
+import JsonbModel.Driver.OrderOps
 
 namespace Jsonb.Driver
 open Jsonb.Wire
@@ -51,6 +52,9 @@ def step (line : String) : String :=
       | none =>
         match numStep req with
         | some r => r
-        | none => badReq
+        | none =>
+          match orderStep req with
+          | some r => r
+          | none => badReq
 
 end Jsonb.Driver
